@@ -63,7 +63,7 @@ theorem admissible_iff (x : Ext) (op : Op) : admissible x op ↔ admissibleStd x
         rw [if_pos hs]; rfl
   | send _ _ _ _ _ => exact Iff.rfl
   | cancel _ _ => exact Iff.rfl
-  | incFee _ _ _ _ => exact Iff.rfl
+  | incFee _ _ _ _ _ => exact Iff.rfl
   | reqBatch _ _ _ _ => exact Iff.rfl
   | bridgeCall _ _ _ _ _ _ => exact Iff.rfl
   | psend _ _ _ _ _ => exact Iff.rfl
@@ -99,7 +99,7 @@ theorem next_eq (x : Ext) (s : State) (op : Op) : x.next s op = x.nextStd s op :
       · rfl
   | send _ _ _ _ _ => rfl
   | cancel _ _ => rfl
-  | incFee _ _ _ _ => rfl
+  | incFee _ _ _ _ _ => rfl
   | reqBatch _ _ _ _ => rfl
   | bridgeCall _ _ _ _ _ _ => rfl
   | psend _ _ _ _ _ => rfl
